@@ -15,6 +15,9 @@
 (*   the independent table Expected, and what the model's two ends report. *)
 (*   No history variable is needed: the runs are deterministic up to the   *)
 (*   choices the statement leaves open, which show in the terminal state.  *)
+(* GenMode "mc": no restriction of order at all (Handshake!Next); only the  *)
+(*   partition restriction above.  MC_C10*.cfg check the invariants of     *)
+(*   Handshake on it, one partition per TLC process.                       *)
 (* GenMode "c04": deterministic scheduling (server steps first), at most   *)
 (*   RelayBudget relay actions, each applied to the frame that was just    *)
 (*   put on the wire; endpoints continue as far as they can (the most      *)
@@ -96,7 +99,13 @@ C10Next ==
      \/ pc["c"] # "config" /\ Sched
   /\ UNCHANGED <<relayRec, fresh>>
 
-GenNext == IF GenMode = "c04" THEN C04Next ELSE C10Next
+(* GenMode "mc": every interleaving (Handshake!Next) - used to model-check one
+   partition of the C10 product per TLC process                              *)
+MCNext == Next /\ UNCHANGED <<relayRec, fresh>>
+
+GenNext == CASE GenMode = "c04" -> C04Next
+             [] GenMode = "mc"  -> MCNext
+             [] OTHER           -> C10Next
 
 GenSpec == GenInit /\ [][GenNext]_gvars
 
